@@ -4,7 +4,8 @@
   All calendar statements quantify over ALL integers (no range), `omega` does the floor divisions.
 
   `Lem.validState t` is the Date object otto holds for the integral time value t:
-  time = Unix(t div 1000, (t mod 1000)·10^6 ns), epoch = t, value = t, isNaN = false.
+  time = Unix(t div 1000, (t mod 1000)·10^6 ns), epoch = t, value = t, isNaN = false;
+  `Lem.stateOf tv` extends it to NaN (= invalidDateObject).  There is no deviation region left.
 -/
 import OttoVerif.C12.Lemmas
 namespace OttoVerif.C12.Thm
@@ -101,12 +102,19 @@ theorem dateCore_eq (y m d h mi s ms : Int) :
 
 
 /-- Date.UTC(a1,…,an) / `new Date(a1,…,an)` (n = 2..7) with integral arguments, through newDateTime's float64
-    wrapper (pick, the two-digit-year test and `year += 1900` in float64, int conversion): the value handed
-    to TimeClip by §15.9.4.3 — two-digit years included (integral years are outside Dev twodigit_fraction). -/
+    wrapper (pick, the two-digit-year test on the truncated year, int conversion, TimeClip on float64(ms)):
+    exactly §15.9.4.3, for every result however large. -/
 theorem dateUTC_int (vs : List Int) (h2 : 2 ≤ vs.length) (h7 : vs.length ≤ 7) (hsm : ∀ v ∈ vs, v.natAbs < 2^53) :
-    newDateTime (vs.map ofInt) = Spec.dateUTCRaw (vs.map ofInt) := Lem.dateUTC_int vs h2 h7 hsm
+    newDateTime (vs.map ofInt) = Spec.dateUTC (vs.map ofInt) := Lem.dateUTC_int vs h2 h7 hsm
 
 example : newDateTime ([99, 13, -5, 25, -61, 3600, 123456].map ofInt) = some 948934863456 := by decide +kernel
+/-- fractional two-digit years and TimeClip, on the model and on the spec: Date.UTC(99.5, 0), Date.UTC(-0.5, 0), Date.UTC(1e6, 0) -/
+example : newDateTime [.fin false 199 (-1), zero] = some 915148800000 ∧ Spec.dateUTC [.fin false 199 (-1), zero] = some 915148800000 ∧
+    newDateTime [.fin true 1 (-1), zero] = Spec.dateUTC [.fin true 1 (-1), zero] ∧
+    newDateTime [.fin false 1000000 0, zero] = none ∧ Spec.dateUTC [.fin false 1000000 0, zero] = none := by decide +kernel
+
+/-- `math.Abs(float64(i)) > 8.64e15` decides TimeClip for EVERY integer i (also where float64(i) rounds) -/
+theorem timeclip_test (i : Int) : beyondMax (ofInt i) = decide (i.natAbs > 8640000000000000) := Lem.beyondMax_ofInt i
 
 -- ================================================================ setters
 
@@ -115,67 +123,78 @@ theorem setter_core (k : Setter) (t : Int) (vs : List Int) (hk : k ≠ .time) (h
     some (setCore k (stateTime t) vs) = Spec.setUTCRaw (toSpec k) (some t) (vs.map fvInt) :=
   Lem.setter_core k t vs hk h1 h2
 
-/-- dateObject.Set / `new Date(t)` / setTime(t) for an integral double: the valid state of t.
-    `DivExact t` (float64 t/1000 truncates to t quo 1000) is the one arithmetic fact not proved here;
-    it is evaluated by the exact F64 model on every sample of the correspondence run. -/
-theorem set_int (d : DateObj) (hd : d.isNaN = false) (t : Int) (hr : t.natAbs < 2^53) (hdiv : DivExact t) :
-    d.set (ofInt t) = validState t := Lem.set_int d hd t hr hdiv
+/-- dateObject.Set(float64(t)) / `new Date(t)` / setTime(t) for ANY integer t and ANY previous state:
+    the object of TimeClip(t) — valid inside ±8.64e15, invalid beyond.
+    `DivExact t` (float64 t/1000 truncates to t quo 1000) is the one arithmetic fact not proved here; it is only
+    needed inside the range and is evaluated by the exact F64 model on every sample of the correspondence run. -/
+theorem set_ofInt (d : DateObj) (t : Int) (hdiv : t.natAbs ≤ 8640000000000000 → DivExact t) :
+    d.set (ofInt t) = stateOf (Spec.TimeClip t) := Lem.set_ofInt d t hdiv
 
-theorem newDate_int (t : Int) (hr : t.natAbs < 2^53) (hdiv : DivExact t) : newDate (ofInt t) = validState t :=
-  Lem.set_int _ rfl t hr hdiv
-
-/-- C12.timeclip_partial: inside the ES5 range `new Date(t)` is the ES5 object (beyond it: Dev no_timeclip) -/
-theorem timeclip_partial (t : Int) (h : t.natAbs ≤ 8640000000000000) (hdiv : DivExact t) :
+/-- C12.timeclip: `new Date(t)` observes exactly like the ES5 object of TimeClip(ToNumber(t)), |t| < 2^53 -/
+theorem timeclip (t : Int) (h53 : t.natAbs < 2^53) (hdiv : t.natAbs ≤ 8640000000000000 → DivExact t) :
     observe (newDate (ofInt t)) = Spec.observe (Spec.clipNumber (ofInt t)) := by
-  rw [newDate_int t (by omega) hdiv, accessors, ofInt_small t (by omega)]
-  simp only [Spec.clipNumber, field_fvInt, Spec.TimeClip]
-  rw [if_neg (by omega)]
+  have hs : newDate (ofInt t) = stateOf (Spec.TimeClip t) := Lem.set_ofInt _ t hdiv
+  rw [hs, ofInt_small t h53]
+  simp only [Spec.clipNumber, field_fvInt]
+  cases hc : Spec.TimeClip t with
+  | none => rfl
+  | some t' =>
+    have : t' = t := by
+      unfold Spec.TimeClip at hc; split at hc <;> simp at hc; omega
+    subst this
+    exact accessors t'
 
 example : DivExact 1419993358860123 := by decide +kernel
 example : DivExact (-8639999999999999) := by decide +kernel
 example : DivExact (-1) := by decide +kernel
 
-theorem setUTC_step (k : Setter) (t : Int) (vs : List Int) (h1 : 1 ≤ vs.length) (h2 : vs.length ≤ k.limit)
-    (hsm : ∀ v ∈ vs, v.natAbs < 2^53) (t' : Int)
-    (ht' : Spec.setUTCRaw (toSpec k) (some t) (vs.map ofInt) = some t') (hr : t'.natAbs < 2^53) (hdiv : DivExact t') :
-    setUTC k (validState t) (vs.map ofInt) = (validState t', some t') :=
-  Lem.setUTC_step k t vs h1 h2 hsm t' ht' hr hdiv
+/-- one call of any of the eight setters (setTime included) with 1..limit integral arguments, from ANY state
+    (valid or invalid): the new object and the return value are the ES5 ones, TimeClip included. -/
+theorem setUTC_step (k : Setter) (tv : Spec.TV) (vs : List Int) (h1 : 1 ≤ vs.length) (h2 : vs.length ≤ k.limit)
+    (hsm : ∀ v ∈ vs, v.natAbs < 2^53)
+    (hdiv : ∀ t', Spec.setUTCRaw (toSpec k) tv (vs.map ofInt) = some t' → t'.natAbs ≤ 8640000000000000 → DivExact t') :
+    setUTC k (stateOf tv) (vs.map ofInt) =
+      (stateOf (Spec.setUTC (toSpec k) tv (vs.map ofInt)), Spec.setUTC (toSpec k) tv (vs.map ofInt)) :=
+  Lem.setUTC_step k tv vs h1 h2 hsm hdiv
 
-/-- all histories of setUTC*/setTime calls with integral arguments, by induction on the history:
-    while every intermediate value stays in the ES5 range (`Good`), otto's object state and every
-    return value are the ES5 ones. -/
-theorem setter_histories (hist : List (Setter × List Int)) (t : Int) (hg : Good t hist) :
-    ∃ tf, (Spec.runSetters (some t) (hist.map liftS)).1 = some tf ∧
-      runSetters (validState t) (hist.map liftM) = (validState tf, (Spec.runSetters (some t) (hist.map liftS)).2) :=
-  Lem.setter_histories hist t hg
+/-- all histories of setUTC*/setTime calls with integral arguments, by induction on the history, from any
+    state: otto's object state and every return value are the ES5 ones (values leaving ±8.64e15 become NaN on
+    both sides; setTime / setUTCFullYear revive an invalid date on both sides). -/
+theorem setter_histories (hist : List (Setter × List Int)) (tv : Spec.TV) (hg : Good tv hist) :
+    runSetters (stateOf tv) (hist.map liftM) =
+      (stateOf (Spec.runSetters tv (hist.map liftS)).1, (Spec.runSetters tv (hist.map liftS)).2) :=
+  Lem.setter_histories hist tv hg
 
-/-- `Good` is satisfiable by a non-trivial history: d = new Date(0); d.setUTCHours(5); d.setTime(1000);
-    d.setUTCFullYear(2000, 13, -3) -/
-example : Good 0 [(.hour, [5]), (.time, [1000]), (.year, [2000, 13, -3])] :=
-  ⟨by decide, by decide, by decide, 18000000, by decide +kernel, by decide, by decide +kernel,
-   by decide, by decide, by decide, 1000, by decide +kernel, by decide, by decide +kernel,
-   by decide, by decide, by decide, 980640001000, by decide +kernel, by decide, by decide +kernel, trivial⟩
+/-- `Good` is satisfiable by a history that leaves the range, is revived by setUTCFullYear and by setTime:
+    d = new Date(8.64e15); d.setUTCMilliseconds(1) (→ NaN); d.setUTCFullYear(2000, 13, -3); d.setTime(1000) -/
+example : Good (some 8640000000000000) [(.ms, [1]), (.year, [2000, 13, -3]), (.time, [1000])] :=
+  ⟨by decide, by decide, by decide, fun t' h hr => by
+      have : t' = 8640000000000001 := by
+        have e : Spec.setUTCRaw (toSpec .ms) (some 8640000000000000) ([1].map ofInt) = some 8640000000000001 := by decide +kernel
+        rw [e] at h; injection h with h; exact h.symm
+      subst this; omega,
+   by decide, by decide, by decide, fun t' h _ => by
+      have e : Spec.setUTCRaw (toSpec .year) (Spec.setUTC (toSpec .ms) (some 8640000000000000) ([1].map ofInt)) ([2000, 13, -3].map ofInt) = some 980640000000 := by decide +kernel
+      rw [e] at h; injection h with h; subst h; decide +kernel,
+   by decide, by decide, by decide, fun t' h _ => by
+      have e : Spec.setUTCRaw (toSpec .time) (Spec.setUTC (toSpec .year) (Spec.setUTC (toSpec .ms) (some 8640000000000000) ([1].map ofInt)) ([2000, 13, -3].map ofInt)) ([1000].map ofInt) = some 1000 := by decide +kernel
+      rw [e] at h; injection h with h; subst h; decide +kernel,
+   trivial⟩
 
 -- ================================================================ invalid dates
 
-/-- §15.9.5: an invalid date answers NaN to valueOf/getTime and every getUTC*, and null to toJSON;
-    holds for EVERY object state with isNaN set, whatever the other fields contain. -/
+/-- §15.9.5: an invalid date answers NaN to valueOf/getTime and every getUTC*, null to toJSON, and toISOString
+    throws RangeError (§15.9.5.43); holds for EVERY object state with isNaN set, whatever the other fields contain. -/
 theorem invalid_sticky (d : DateObj) (h : d.isNaN = true) :
-    observe d = Spec.observe none ∧ getTime d = none ∧ toJSON d = .null := by
-  simp [observe, Spec.observe, getTime, toJSON, h]
+    observe d = Spec.observe none ∧ getTime d = none ∧ toJSON d = .null ∧ toISOString d = .rangeError := by
+  simp [observe, Spec.observe, getTime, toJSON, toISOString, h]
 
 /-- `new Date(NaN | ±Infinity)` is invalid, like TimeClip(ToNumber(v)) -/
 theorem newDate_nonfinite (v : FV) (h : Spec.field? v = none) :
-    (newDate v).isNaN = true ∧ observe (newDate v) = Spec.observe (Spec.clipNumber v) := by
-  cases v with
-  | nan => simp [newDate, DateObj.set, epochToTime, isNaN, observe, Spec.observe, Spec.clipNumber, Spec.field?]
-  | inf s => simp [newDate, DateObj.set, epochToTime, isNaN, isInf, observe, Spec.observe, Spec.clipNumber, Spec.field?]
-  | fin s m e => simp [Spec.field?] at h
-
-/-- model fact behind two findings: no setter (not even setTime / setUTCFullYear) ever revives an invalid date -/
-theorem invalid_absorbing_model (k : Setter) (d : DateObj) (args : List FV) (h : d.isNaN = true) :
-    (setUTC k d args).1.isNaN = true := by
-  cases k <;> simp [setUTC, h, DateObj.set] <;> split <;> simp
+    newDate v = invalidDateObject ∧ observe (newDate v) = Spec.observe (Spec.clipNumber v) := by
+  have hs : newDate v = invalidDateObject := Lem.set_nonfinite _ v h
+  refine ⟨hs, ?_⟩
+  rw [hs]; simp [Spec.clipNumber, h, observe, invalidDateObject, Spec.observe]
 
 /-- Date.UTC / constructor: a NaN or ±Infinity among the supplied fields gives NaN on both sides -/
 theorem dateUTC_nan (args : List FV) (i : Nat) (hi : i < 7) (x : FV) (hx : args[i]? = some x) (hn : Spec.field? x = none) :
@@ -222,49 +241,25 @@ theorem setter_nan (k : Setter) (t : Int) (args : List FV) (hk : k ≠ .time) (h
         simp [toSpec, Spec.argOr] <;> (repeat' split) <;> (first | (simp_all; done) | (rcases hx with rfl | rfl | rfl | rfl <;> simp_all))
 
 
+
 -- ================================================================ ISO-8601 strings
 
-/-- toISOString / toJSON of a valid date whose year is 0..9999 is the §15.9.1.15 string (¬Dev iso_expanded_year) -/
-theorem iso_format_eq (t : Int) (hy0 : 0 ≤ Spec.YearFromTime t) (hy1 : Spec.YearFromTime t ≤ 9999) :
+/-- toISOString / toJSON of every valid date in the ES5 range is the §15.9.1.15 string — four-digit years and
+    the expanded ±YYYYYY form of §15.9.1.15.1 alike. -/
+theorem iso_format_eq (t : Int) (h : t.natAbs ≤ 8640000000000000) :
     toISOString (validState t) = .ok (Spec.isoString t) ∧ toJSON (validState t) = .ok (Spec.isoString t) := by
-  have := Lem.iso_format_eq t hy0 hy1
+  have hy := Lem.year_bound t h
+  have := Lem.iso_format_eq t (by omega)
   simp [toISOString, toJSON, validState, this]
 
-/-- Date.parse(d.toISOString()) = d.getTime(): the string produced for a year in 0..9999 parses back to t, all t -/
-theorem iso_roundtrip (t : Int) (hy0 : 0 ≤ Spec.YearFromTime t) (hy1 : Spec.YearFromTime t ≤ 9999) :
+/-- Date.parse(d.toISOString()) = d.getTime() for EVERY valid date in the ES5 range -/
+theorem iso_roundtrip (t : Int) (h : t.natAbs ≤ 8640000000000000) :
     parseOfISO (validState t) = Spec.parseOfISO t := by
-  have := Lem.iso_roundtrip t hy0 hy1
+  have := Lem.iso_roundtrip t h
   simp [parseOfISO, toISOString, validState, this, Spec.parseOfISO]
 
-/-- the hypothesis is met on both sides of the epoch (years 1969 and 2024) -/
-example : 0 ≤ Spec.YearFromTime (-1) ∧ Spec.YearFromTime (-1) ≤ 9999 ∧ 0 ≤ Spec.YearFromTime 1719792000000 ∧ Spec.YearFromTime 1719792000000 ≤ 9999 := by decide +kernel
-
--- ================================================================ deviation regions: kernel-checked witnesses
-
-/-- Dev no_timeclip: new Date(8.64e15 + 1) stays valid -/
-example : getTime (newDate (.fin false 8640000000000001 0)) = some 8640000000000001 ∧
-    Spec.clipNumber (.fin false 8640000000000001 0) = none := by decide +kernel
-/-- Dev no_timeclip: Date.UTC(1e6, 0) -/
-example : newDateTime [.fin false 1000000 0, zero] = some 31494784780800000 ∧
-    Spec.dateUTC [.fin false 1000000 0, zero] = none := by decide +kernel
-/-- Dev twodigit_fraction: Date.UTC(99.5, 0)  (99.5 = 199·2^-1) -/
-example : newDateTime [.fin false 199 (-1), zero] = some (-59042995200000) ∧
-    Spec.dateUTC [.fin false 199 (-1), zero] = some 915148800000 := by decide +kernel
-/-- Dev twodigit_fraction: Date.UTC(-0.5, 0) -/
-example : newDateTime [.fin true 1 (-1), zero] ≠ Spec.dateUTC [.fin true 1 (-1), zero] := by decide +kernel
-/-- Dev iso_invalid_no_throw: new Date(NaN).toISOString() -/
-example : toISOString (newDate .nan) = .ok [73, 110, 118, 97, 108, 105, 100, 32, 68, 97, 116, 101] ∧
-    Spec.toISOString (Spec.clipNumber .nan) = .rangeError := by decide +kernel
-/-- Dev iso_expanded_year: new Date(253402300800000).toISOString() is "10000-01-01T00:00:00.000Z", ES5 "+010000-01-01T00:00:00.000Z" -/
-example : toISOString (newDate (.fin false 253402300800000 0)) = .ok ([49,48,48,48,48] ++ [45,48,49,45,48,49,84,48,48,58,48,48,58,48,48,46,48,48,48,90]) ∧
-    Spec.toISOString (Spec.clipNumber (.fin false 253402300800000 0)) = .ok ([43,48,49,48,48,48,48] ++ [45,48,49,45,48,49,84,48,48,58,48,48,58,48,48,46,48,48,48,90]) := by decide +kernel
-/-- … and the produced string does not parse back -/
-example : parseOfISO (newDate (.fin false 253402300800000 0)) = none := by decide +kernel
-/-- Dev setfullyear_invalid: d = new Date(NaN); d.setUTCFullYear(2000) -/
-example : (setUTC .year (newDate .nan) [.fin false 2000 0]).2 = none ∧
-    Spec.setUTC .year (Spec.clipNumber .nan) [.fin false 2000 0] = some 946684800000 := by decide +kernel
-/-- Dev settime_sticky_invalid: d = new Date(NaN); d.setTime(5) returns 5 but d.getTime() is NaN -/
-example : (setUTC .time (newDate .nan) [.fin false 5 0]).2 = some 5 ∧ getTime (setUTC .time (newDate .nan) [.fin false 5 0]).1 = none ∧
-    Spec.setUTC .time (Spec.clipNumber .nan) [.fin false 5 0] = some 5 := by decide +kernel
+/-- new Date(253402300800000).toISOString() = "+010000-01-01T00:00:00.000Z", and it parses back -/
+example : toISOString (newDate (.fin false 253402300800000 0)) = .ok ([43,48,49,48,48,48,48] ++ [45,48,49,45,48,49,84,48,48,58,48,48,58,48,48,46,48,48,48,90]) ∧
+    parseOfISO (newDate (.fin false 253402300800000 0)) = some 253402300800000 := by decide +kernel
 
 end OttoVerif.C12.Thm
